@@ -171,7 +171,7 @@ func ParseResolve(text string, sys resolve.System) (*resolve.Graph, error) {
 				Version:     r.requirement,
 			}
 			if err := g.AddError(src, vk, r.err); err != nil {
-				return nil, fmt.Errorf("cannot add an error to %s", g.Nodes[src].Version)
+				return nil, fmt.Errorf("line %d: cannot add an error: %v", r.line, err)
 			}
 			continue
 		}
@@ -182,7 +182,7 @@ func ParseResolve(text string, sys resolve.System) (*resolve.Graph, error) {
 		}
 
 		if err := g.AddEdge(src, dst, r.requirement, r.dt); err != nil {
-			return nil, fmt.Errorf("cannot create edge from %s to %s", g.Nodes[src].Version, g.Nodes[dst].Version)
+			return nil, fmt.Errorf("line %d: cannot create edge: %v", r.line, err)
 		}
 	}
 
